@@ -107,7 +107,10 @@ def run(chk):
     if chk.want("R03.1") or chk.want("R03.2") or chk.want("R03.3"):
         # helper methods that turn (centres, radius) into a cell range are sites of their own
         helpers = {}
+        expanded = {h for q in SITES for h in getattr(evs[q], "inlined_helpers", [])}
         for fn in cr.methods("Crystal"):
+            if fn.name in expanded:
+                continue            # a helper new to the rule set: its body is part of every site that calls it
             if fn.name in SITES or not any(isinstance(n, (ast.Name, ast.Attribute)) and getattr(n, "id", getattr(n, "attr", None)) in ("ceil", "floor")
                                           for n in ast.walk(fn)):
                 continue
@@ -389,7 +392,13 @@ def slab_rules(chk, cr):
                len(cp) == 1 and len(cp[0].extra["args"]) == 3)
     if chk.want("R03.4"):
         stores = [e for e in ev.events if e.kind == "store" and e.loops]
-        chk.need(len(stores) >= 2, f"{q}: block stores not found")
+        bcast = None
+        if len(stores) < 2:
+            bcast = slab_broadcast(chk, cr, q)
+        chk.need(len(stores) >= 2 or bcast, f"{q}: block stores not found")
+    if chk.want("R03.4") and bcast:
+        nuc = None
+    elif chk.want("R03.4"):
         slices = {}
         for e in stores:
             t = e.target.as_atom()
@@ -417,6 +426,7 @@ def slab_rules(chk, cr):
                 cell_ok = True
         chk.ob("R03.4", CR, q, "block i holds the unit-cell positions shifted by cell i, and that same cell", pos_ok and cell_ok,
                found={k: str(v)[-80:] for k, v in vals.items()})
+    if chk.want("R03.4"):
         # other columns tiled ncells times
         comp = [e for e in ev.events if e.kind == "assign" and e.name == "slab_dict"]
         okt = False
@@ -437,7 +447,9 @@ def slab_rules(chk, cr):
                "frac_pos" in final and "cart_pos" in final and final["cart_pos"].key() == f"self.to_cartesian({final['frac_pos']})",
                found={k: str(v) for k, v in final.items() if k.endswith("pos")})
         chk.ob("R03.4", CR, q, "n_uc and n_cells report the block size and the number of blocks",
-               final.get("n_uc") is not None and final["n_uc"].key() == nuc.key() and "len(" in final.get("n_cells", P.const(0)).key(),
+               final.get("n_uc") is not None and (final["n_uc"].key() == nuc.key() if nuc is not None else
+                                                  (final["n_uc"].key().startswith("len(") and "['frac_pos']" in final["n_uc"].key()))
+               and "len(" in final.get("n_cells", P.const(0)).key(),
                found={k: str(v) for k, v in final.items() if k.startswith("n_")})
         # atoms_in_radius: uc_atom = tile(arange(n_uc), n_cells)[idxs]
         av = cr.ev("Crystal.atoms_in_radius")
@@ -449,7 +461,96 @@ def slab_rules(chk, cr):
                     t = a[1].as_atom()
                     ok = bool(t and call_name(t) == "numpy.tile" and "['n_uc']" in t[2][0].key() and "numpy.arange" in t[2][0].key()
                               and "['n_cells']" in t[2][1].key())
+                elif a and a[0] == "bin" and a[1] == "Mod" and "['n_uc']" in a[3].key():
+                    # cell-major blocks of n_uc rows: the unit-cell atom of slab row i is i mod n_uc; the rows are the ball-query indices
+                    ok = "query_ball_point(" in a[2].key()
         chk.ob("R03.4", CR, "Crystal.atoms_in_radius", "uc_atom = tile(arange(n_uc), n_cells) indexed like the other columns", ok)
+
+
+def slab_broadcast(chk, cr, q):
+    """Vectorised slab: both columns are filled cell-major by broadcasting, either through (ncells, n_uc, 3) views of the flat buffers
+    or by reshaping the broadcast sum; np.repeat(cells, n_uc, axis=0) is the cell column.  Returns True when this layout was recognised
+    (its obligations are emitted), False when the function has neither layout."""
+    ev = cr.ev(q, opaque={"cells", "uc_pos", "ncells", "n_uc", "pos", "slab_cells"})
+    NA = ("numpy.newaxis", "None")
+    SL = "(slice None None None)"
+
+    def is_b(term, base, axis):
+        a = term.as_atom()
+        if not (a and a[0] == "sub" and a[1].key() == base and len(a[2]) == 3):
+            return False
+        ks = [i.key() for i in a[2]]
+        return ks[axis] in NA and all(k == SL for j, k in enumerate(ks) if j != axis)
+
+    def is_sum(term):
+        """uc_pos[None, :, :] + cells[:, None, :]   (site index on axis 1, cell index on axis 0 = cell-major)"""
+        if not term.is_poly() or len(term.n) != 2:
+            return None
+        parts = [P.atom(m[0][0]) for m, c in term.n.items() if len(m) == 1 and m[0][1] == 1 and c == 1]
+        if len(parts) != 2:
+            return None
+        if (is_b(parts[0], "$uc_pos", 0) and is_b(parts[1], "$cells", 1)) or (is_b(parts[1], "$uc_pos", 0) and is_b(parts[0], "$cells", 1)):
+            return "cell-major"
+        if (is_b(parts[0], "$uc_pos", 1) and is_b(parts[1], "$cells", 0)) or (is_b(parts[1], "$uc_pos", 1) and is_b(parts[0], "$cells", 0)):
+            return "site-major"
+        return None
+
+    def strip(term):
+        a = term.as_atom()
+        while a and a[0] == "call" and call_name(a) in (".astype", "numpy.ascontiguousarray", "numpy.asarray") and isinstance(a[1], P) and a[1].as_atom() \
+                and a[1].as_atom()[0] == "attr":
+            term = a[1].as_atom()[1]
+            a = term.as_atom()
+        return term
+
+    def view_of(term, buf):
+        a = term.as_atom()
+        if a and a[0] == "obj":
+            a = a[3].as_atom()
+        if a and a[0] == "call" and call_name(a) == ".reshape" and a[1].as_atom()[1].key() == buf:
+            dims = [x.key() for x in (seq_items(a[2][0]) if len(a[2]) == 1 and seq_items(a[2][0]) else a[2])]
+            return dims == ["$ncells", "$n_uc", "3"]
+        return False
+    pos_kind = cell_kind = None
+    # form A: views of the flat buffers filled in one go
+    for e in ev.events:
+        if e.kind == "call" and call_name(e.value.as_atom() or ()) == "numpy.add":
+            kw = dict(e.value.as_atom()[3]) if len(e.value.as_atom()) > 3 and e.value.as_atom()[3] else {}
+            if "out" in kw and view_of(kw["out"], "$pos") and len(e.extra["args"]) == 2:
+                pos_kind = is_sum(e.extra["args"][0] + e.extra["args"][1])
+        if e.kind == "store" and e.target.as_atom() and e.target.as_atom()[0] == "sub" and [i.key() for i in e.target.as_atom()[2]] in (["'...'"], ["Ellipsis"], ["(const Ellipsis)"]):
+            base = e.target.as_atom()[1]
+            if view_of(base, "$pos"):
+                pos_kind = is_sum(e.value)
+            elif view_of(base, "$slab_cells"):
+                cell_kind = "cell-major" if is_b(e.value, "$cells", 1) else "site-major" if is_b(e.value, "$cells", 0) else None
+    # form B: the flat arrays are the reshaped broadcast sum / np.repeat of the cells
+    defs = {k[1]: v for k, v in ev.defs.items() if k[0] == "local" and k[1] in ("pos", "slab_cells")}
+    if pos_kind is None and "pos" in defs:
+        t = strip(defs["pos"])
+        a = t.as_atom()
+        if a and a[0] == "call" and call_name(a) == ".reshape":
+            dims = [x.key() for x in (seq_items(a[2][0]) if len(a[2]) == 1 and seq_items(a[2][0]) else a[2])]
+            if dims in (["$n_uc*$ncells", "3"], ["$ncells*$n_uc", "3"], ["-1", "3"]):
+                pos_kind = is_sum(a[1].as_atom()[1])
+    if cell_kind is None and "slab_cells" in defs:
+        t = strip(defs["slab_cells"])
+        a = t.as_atom()
+        if a and a[0] == "call" and call_name(a) == "numpy.repeat" and len(a[2]) >= 2 and a[2][0].key() == "$cells" and a[2][1].key() == "$n_uc":
+            kw = dict(a[3]) if len(a) > 3 and a[3] else {}
+            cell_kind = "cell-major" if kw.get("axis") is not None and kw["axis"].key() == "0" else None
+        elif a and a[0] == "call" and call_name(a) == "numpy.tile" and a[2] and a[2][0].key() == "$cells":
+            cell_kind = "site-major"
+    if pos_kind is None and cell_kind is None:
+        return False
+    chk.ob("R03.4", CR, q, "position block and cell block of cell i use the same slice [i*n : (i+1)*n]", pos_kind == "cell-major" and cell_kind == "cell-major",
+           found=f"positions {pos_kind}, cells {cell_kind} (broadcast over (ncells, n_uc, 3))")
+    chk.ob("R03.4", CR, q, "block i holds the unit-cell positions shifted by cell i, and that same cell", pos_kind == "cell-major" and cell_kind == "cell-major",
+           found=f"positions {pos_kind}, cells {cell_kind}")
+    ucp = [v for k, v in ev.defs.items() if k[0] == "local" and k[1] == "uc_pos"]
+    chk.ob("R03.4", CR, q, "the broadcast adds the unit-cell fractional positions (not another column) to the cell offsets",
+           bool(ucp) and ucp[0].key().endswith("['frac_pos']"), fingerprint="broadcast-source", found=str(ucp[0])[:80] if ucp else None)
+    return True
 
 
 def find_uc_atoms(ev):
